@@ -411,7 +411,14 @@ func opWire() error {
 			select {
 			case a = <-ch:
 			case <-time.After(20 * time.Second):
-				a.panic = "HANG (no answer in 20 s)"
+				// slow is not stuck: on a busy machine the goroutine may simply not have been scheduled; a decoder that hangs
+				// does not answer within five minutes either
+				res.Stats["slow-decodes"]++
+				select {
+				case a = <-ch:
+				case <-time.After(5 * time.Minute):
+					a.panic = "HANG (no answer in 5 min)"
+				}
 			}
 			res.Queries++
 			res.Stats["expect:"+row.Expect]++
@@ -513,7 +520,15 @@ func opWire() error {
 				out = append(out, Mismatch{Beh: -1, Step: i, Kind: "wire", Exp: "mutated/random bytes: error or message, no panic, bounded allocation", Got: fmt.Sprintf("%s frame=%x", s, frame[:min(len(frame), 200)])})
 			}
 		case <-time.After(20 * time.Second):
-			out = append(out, Mismatch{Beh: -1, Step: i, Kind: "wire", Exp: "no hang", Got: fmt.Sprintf("frame=%x", frame[:min(len(frame), 200)])})
+			res.Stats["slow-decodes"]++ // slow is not stuck (busy machine): only no answer within five minutes is a hang
+			select {
+			case s := <-done:
+				if s != "" {
+					out = append(out, Mismatch{Beh: -1, Step: i, Kind: "wire", Exp: "mutated/random bytes: error or message, no panic, bounded allocation", Got: fmt.Sprintf("%s frame=%x", s, frame[:min(len(frame), 200)])})
+				}
+			case <-time.After(5 * time.Minute):
+				out = append(out, Mismatch{Beh: -1, Step: i, Kind: "wire", Exp: "no hang", Got: fmt.Sprintf("frame=%x", frame[:min(len(frame), 200)])})
+			}
 		}
 		res.Stats["raw"]++
 	}
